@@ -118,6 +118,7 @@ def check(ctx):
     check_worker_outputs(ctx, pa)
     check_recorded_path_first(ctx)
     check_outputs_created_afresh(ctx, pa)
+    check_finalisers_release(ctx)
     # settings this property depends on are handed down every call
     # chain, never left to a callee's default (sa/rules/forwarding.py)
     from ..rules.forwarding import check_forwarding
@@ -874,3 +875,66 @@ def check_outputs_created_afresh(ctx, pa):
     if n < 3:
         raise AnalysisError(f'only {n} output files with append-mode '
                             'writes found among the runners')
+
+
+def check_finalisers_release(ctx):
+    """objects that own a scratch directory (the row iterator's CSR
+    transcription, the file tracker's staging area) give it back in
+    `__del__`.  Whenever the attribute holding the directory is set, the
+    finaliser must reach the release on every path on which it returns
+    normally: a release that sits behind a statement whose exception is
+    caught and dropped is skipped exactly when that statement fails, and
+    the directory stays behind."""
+    db = ctx.db
+    rule = 'R-PAIR/tempdir/finaliser'
+    n = 0
+    for fi in db.iter_functions():
+        if fi.name != '__del__' or fi.module.short.startswith('gpu_utils'):
+            continue
+        cfg = cfg_of(fi)
+        rd = rd_of(fi)
+        rel = {}
+        for node in cfg.nodes:
+            if node.id not in rd.live:
+                continue
+            for c in cfg.calls_in(node):
+                f = c.func
+                nm = f.id if isinstance(f, ast.Name) else (
+                    f.attr if isinstance(f, ast.Attribute) else None)
+                if nm in ('_clean_up', 'rmtree') and c.args and isinstance(
+                        c.args[0], ast.Attribute) and isinstance(
+                            c.args[0].value, ast.Name) \
+                        and c.args[0].value.id == 'self':
+                    rel.setdefault(c.args[0].attr, set()).add(node.id)
+        for attr, nodes in sorted(rel.items()):
+            n += 1
+
+            def edge_ok(a, b, lab, _attr=attr):
+                if b == cfg.exc_exit:
+                    return False
+                na = cfg.nodes[a]
+                if na.kind == 'if' and lab in ('true', 'false'):
+                    t = na.ast.test
+                    if isinstance(t, ast.Compare) and len(t.ops) == 1 \
+                            and isinstance(t.left, ast.Attribute) \
+                            and t.left.attr == _attr and isinstance(
+                                t.comparators[0], ast.Constant) \
+                            and t.comparators[0].value is None:
+                        holds = isinstance(t.ops[0], ast.IsNot)
+                        if (lab == 'true') != holds:
+                            return False     # the directory is set
+                return True
+            p = cfg.path(cfg.entry, {cfg.exit},
+                         avoid=lambda x: x.id in nodes, edge_ok=edge_ok)
+            ok = p is None
+            ctx.touch(fi)
+            ctx.ob(rule, f'{fi.qual}:self.{attr}', fi.loc(), ok,
+                   f'the finaliser releases self.{attr} whenever it is '
+                   'set and the finaliser returns normally' if ok else
+                   f'{fi.qual} can return normally without releasing '
+                   f'self.{attr} (an exception on the way is caught and '
+                   'dropped): the scratch directory stays behind',
+                   witness=cfg.fmt_path(p) if p else None)
+    if n < 2:
+        raise AnalysisError(f'only {n} finalisers that release a scratch '
+                            'directory found')
